@@ -129,6 +129,8 @@ def outcome_kind(e):
     if isinstance(e, AssertionError): return 'AssertionError'
     if isinstance(e, AttributeError): return 'AttributeError'
     if isinstance(e, (dbapiprovider.DBException, dbapiprovider.Warning)): return 'wrapped'
+    # obj._save_() re-wraps the provider's (already wrapped) IntegrityError / DatabaseError
+    if isinstance(e, (core.TransactionIntegrityError, core.UnexpectedError)): return 'wrapped'
     if isinstance(e, (sqlite3.Error, sqlite3.Warning, MemoryError, KeyboardInterrupt)): return 'raw'
     if isinstance(e, RuntimeError) and 'unlocked' in str(e): return 'unlocked'
     return 'other:' + type(e).__name__
@@ -440,9 +442,10 @@ def check_cases(ctx, cases, reals):
                 if len(e) == 4 and e[3] != 'ok': ctx.count('fault-hit:%s%s' % (e[0], (':' + e[1]) if e[1] else ''))
                 if len(e) == 1: ctx.count('lock-event:' + e[0])
         for p in problems:
+            ctx.count('violation:' + violation_key(c, p, r).split(':')[0])
             ctx.violation(p, cj, observed={'sessions': r.get('sessions'), 'other': r.get('other'), 'blocked': r.get('blocked')},
                           expected='lock free, cache closed, every connection pooled-and-idle or closed exactly once, later sessions unaffected',
-                          key=violation_key(c, p))
+                          key=violation_key(c, p, r))
         if m is not None and not r['blocked']:
             if 'driver_error' in m:
                 ctx.divergence('driver error', cj, model=m)
@@ -450,7 +453,22 @@ def check_cases(ctx, cases, reals):
                 compare(ctx, c, r, m, foreign)
 
 
-def violation_key(case, problem):
+def half_initialised(case, real):
+    """the session under test ended with pool.con assigned but pool.pid missing: a PRAGMA of SQLitePool._connect failed on
+    the first connect of the thread (canonical minimal input: shape=read, pool=fresh, faults=[1])"""
+    if real.get('blocked') or not real.get('sessions'): return False
+    i = 0 if case['pool'] == 'fresh' else 1
+    if len(real['sessions']) <= i: return False
+    st = real['sessions'][i]['state']
+    return st['poolCon'] is not None and not st['poolPid']
+
+
+KNOWN_KEY_CONNECT_INIT = 'sqlitepool-connect-init-fault:no-pid'
+
+
+def violation_key(case, problem, real=None):
+    if real is not None and half_initialised(case, real) and ('following session' in problem or 'neither returned' in problem):
+        return KNOWN_KEY_CONNECT_INIT
     kind = ('leak' if 'neither returned' in problem else 'double-close' if 'times on connection' in problem else
             'lock-held' if 'still held' in problem else 'blocked' if 'blocked' in problem else
             'pooled-in-transaction' if 'inside an open transaction' in problem else 'later-session-failed' if 'following session' in problem else 'other')
@@ -464,7 +482,7 @@ def known_defect_replay(ctx, workdir):
     r = real_case(workdir, case)
     ctx.case(['witness', 'read', 'fresh', [1]], kind='witness:connect-pragma-fault')
     for p in oracle(ctx, case, r):
-        ctx.violation(p, case_json(case), observed={'sessions': r.get('sessions')}, key=violation_key(case, p))
+        ctx.violation(p, case_json(case), observed={'sessions': r.get('sessions')}, key=violation_key(case, p, r))
 
 
 def run(ctx):
